@@ -52,7 +52,7 @@ def toks(n, out):
     k = n[0]
     if k == "h":
         nm = n[1]
-        s = f'#"{nm}"' if (isinstance(nm, str) and " " in nm) else f"#{nm}"
+        s = f'#"{nm}"' if (isinstance(nm, str) and (" " in nm or "." in nm)) else f"#{nm}"
         s += "".join("." + q for q in (n[2] if len(n) > 2 else []))
         out.append(s)
     elif k == "v":
@@ -151,7 +151,7 @@ REGEXES = ["/a.b/", "/^[a-z]+$/", "/\\d{2}/", "/(x|y)z/", "/a\\/b/", "/\\s+x/"]
 
 
 def kinds():
-    hs = [["h", "a"], ["h", "0"], ["h", "x y"], ["h", "a", ["asbool"]], ["h", "h-1"], ["h", "a_b.nocontrib".split(".")[0], ["nocontrib"]]]
+    hs = [["h", "a"], ["h", "0"], ["h", "x y"], ["h", "a", ["asbool"]], ["h", "h-1"], ["h", "a_b.nocontrib".split(".")[0], ["nocontrib"]], ["h", "a. b"], ["h", "a.b"]]
     vs = [["v", "x"], ["v", "x", ["k"]], ["v", "x", ["asbool"]], ["v", "x", ["k", "onmatch"]], ["v", "x-y"]]
     ts = [["t", "abc", "str"], ["t", "a b,c", "str"], ["t", "", "str"], ["t", "5", "int"], ["t", "-3", "int"], ["t", "+2", "int"], ["t", "1.5", "float"], ["t", "-0.25", "float"], ["t", ".5", "float"]]
     ts += [["t", r, "regex"] for r in REGEXES]
